@@ -45,9 +45,15 @@ def unsafe_census(repo="/repo"):
     for f in sorted(glob.glob(os.path.join(repo, "rust", "src", "*.rs"))):
         blocks = fns = 0
         text = open(f, errors="replace").read()
-        m = re.search(r"^#\[cfg\(test\)\]\s*\nmod\s+\w+\s*\{", text, re.M)
-        if m:
-            text = text[:m.start()]       # unit-test modules are not part of the modelled code
+        # unit-test modules are not part of the modelled code: cut each `#[cfg(test)] mod x { ... }` block
+        # (up to its closing brace at column 0, rustfmt layout) - NOT everything after it: some files
+        # carry their test module in the middle
+        while True:
+            m = re.search(r"^#\[cfg\(test\)\]\s*\nmod\s+\w+\s*\{", text, re.M)
+            if not m:
+                break
+            e = re.compile(r"^\}\s*$", re.M).search(text, m.end())
+            text = text[:m.start()] + (text[e.end():] if e else "")
         for line in text.split("\n"):
             t = line.strip()
             if t.startswith("//"):
